@@ -369,8 +369,13 @@ def _where(i, args, kw, node, fr):
         return (r,)
     c, x, y = args
     elem = x.elem_sort if isinstance(x, Arr) else (y.elem_sort if isinstance(y, Arr) else (Real if isinstance(x, float) or isinstance(y, float) else Int))
-    gx = (lambda k: z3.Select(x.data, k)) if isinstance(x, Arr) else (lambda k: to_z3(x, elem))
-    gy = (lambda k: z3.Select(y.data, k)) if isinstance(y, Arr) else (lambda k: to_z3(y, elem))
+    def sc(v):
+        if elem == Val and isinstance(v, (int, float)):
+            from .arrays import const_of
+            return const_of(Val, v)
+        return to_z3(v, elem)
+    gx = (lambda k: z3.Select(x.data, k)) if isinstance(x, Arr) else (lambda k: sc(x))
+    gy = (lambda k: z3.Select(y.data, k)) if isinstance(y, Arr) else (lambda k: sc(y))
     if c.ndim != 1:
         raise Unsupported("3-arg where on 2-D", node)
     return define1(i, c.shape[0], elem, lambda k: z3.If(z3.Select(c.data, k), gx(k), gy(k)), "where3")
